@@ -4,18 +4,18 @@ CONSTANTS
  MaxB = 2
  BatchShapes <- Shapes3
  Writers = {w1}
- Safe = TRUE
- KeepN = 1
+ Safe = FALSE
+ KeepN = 2
  MaxEp = 7
  MaxSid = 4
  WithReader = FALSE
  WithCopy = FALSE
  WithMerger = TRUE
  WithPurge = TRUE
- WithMemMerge = FALSE
+ WithMemMerge = TRUE
  MaxMergeInputs = 2
- AsyncRelease = TRUE
-  WithMergeFail = TRUE
+ AsyncRelease = FALSE
+  WithMergeFail = FALSE
  MaxOpens = 2
 CONSTRAINT Bound
 INVARIANTS RootIsReplay UniqueLive HeldAreReplays EveryBoltIsAState Durable NewestLoads BoltFilesOnDisk RootFilesOnDisk RootFilesProtected NoOrphansWhenQuiescent RollbackOK
